@@ -114,7 +114,11 @@ pub(crate) fn parse_directive(jsx_attr: &JSXAttr, is_component: bool) -> Directi
         }
     } else {
         modifiers = Some(splitted.map(Atom::from).collect());
-        value = undefined();
+        value = match &jsx_attr.value {
+            // `v-foo="text"`: the string is the value
+            Some(JSXAttrValue::Lit(Lit::Str(str))) => string_attr_value(str),
+            _ => undefined(),
+        };
     }
 
     Directive::Normal(NormalDirective {
@@ -152,6 +156,15 @@ fn lowercase_first(name: &str) -> String {
     }
 }
 
+/// A string attribute value as an expression: built from the decoded value (the source text of a
+/// JSX string has entities and no escapes, so it is not a JS string) with the same white space
+/// normalisation as any other string attribute.
+fn string_attr_value(str: &Str) -> Expr {
+    Expr::Lit(Lit::Str(quote_str!(crate::util::transform_text(
+        &str.value
+    ))))
+}
+
 fn undefined() -> Expr {
     Expr::Unary(UnaryExpr {
         span: DUMMY_SP,
@@ -179,6 +192,7 @@ fn parse_modifiers(exprs: &[Option<ExprOrSpread>]) -> BTreeSet<Atom> {
 
 fn parse_v_text_directive(jsx_attr: &JSXAttr) -> Directive {
     let expr = match &jsx_attr.value {
+        Some(JSXAttrValue::Lit(Lit::Str(str))) => string_attr_value(str),
         Some(JSXAttrValue::Lit(lit)) => Expr::Lit(lit.clone()),
         Some(JSXAttrValue::JSXExprContainer(JSXExprContainer {
             expr: JSXExpr::Expr(expr),
@@ -211,6 +225,7 @@ fn parse_v_text_directive(jsx_attr: &JSXAttr) -> Directive {
 
 fn parse_v_html_directive(jsx_attr: &JSXAttr) -> Directive {
     let expr = match &jsx_attr.value {
+        Some(JSXAttrValue::Lit(Lit::Str(str))) => string_attr_value(str),
         Some(JSXAttrValue::Lit(lit)) => Expr::Lit(lit.clone()),
         Some(JSXAttrValue::JSXExprContainer(JSXExprContainer {
             expr: JSXExpr::Expr(expr),
